@@ -159,8 +159,42 @@ def rule_r2(chk, p, t):
         for n in walk_no_nested(sdo.node):
             if isinstance(n, ast.Call) and isinstance(n.func, ast.Attribute) and n.func.attr in ("extend", "append") and isinstance(n.func.value, ast.Name):
                 prods.append(n)
-        other = [x for x in prods if x.func.value.id != lst.id and x.func.value.id not in ("detected_maneuvers",)]
-        feeding = [x for x in prods if x.func.value.id == lst.id]
+        # tributaries: a list that is itself merged into the saved list (`saved.extend(part)`, `saved += part`) on
+        # every path after each of its own producers feeds the saved list too
+        cfg = cfg_of(sdo)
+        saved = {lst.id}
+        changed = True
+        merges = {}
+        while changed:
+            changed = False
+            for n in cfg.nodes:
+                a = n.ast
+                if n.kind != "stmt" or a is None:
+                    continue
+                src = dst = None
+                if isinstance(a, ast.Expr) and isinstance(a.value, ast.Call) and isinstance(a.value.func, ast.Attribute) and a.value.func.attr == "extend" and isinstance(a.value.func.value, ast.Name) and a.value.args:
+                    dst, arg = a.value.func.value.id, a.value.args[0]
+                    if isinstance(arg, ast.Name):
+                        src = arg.id
+                    elif isinstance(arg, (ast.GeneratorExp, ast.ListComp)) and len(arg.generators) == 1 and not arg.generators[0].ifs and isinstance(arg.generators[0].iter, ast.Name) and unparse(arg.elt) == unparse(arg.generators[0].target):
+                        src = arg.generators[0].iter.id
+                elif isinstance(a, ast.AugAssign) and isinstance(a.op, ast.Add) and isinstance(a.target, ast.Name) and isinstance(a.value, ast.Name):
+                    dst, src = a.target.id, a.value.id
+                if dst in saved and src is not None and src not in saved and src not in sdo.params:
+                    merges.setdefault(src, []).append(n.id)
+            for src, sites in merges.items():
+                if src not in saved:
+                    saved.add(src)
+                    changed = True
+        late = []
+        for x in prods:
+            nm = x.func.value.id
+            if nm in merges:
+                nd = cfg.node_of(x)
+                if nd is not None and nd.id not in merges[nm] and not cfg.must_pass(cfg.exit.id, via_nodes=merges[nm], start=nd.id):
+                    late.append(x)
+        other = [x for x in prods if x.func.value.id not in saved and x.func.value.id not in ("detected_maneuvers",)] + late
+        feeding = [x for x in prods if x.func.value.id in saved]
         if other:
             r.violation(sdo.qualname + ":producers", f"other-list:{unparse(other[0])[:60]}", f"`{unparse(other[0])[:70]}` collects rows in a list that is not the one saved", sdo.loc(other[0]))
         elif len(feeding) >= 6:
@@ -276,7 +310,32 @@ def rule_r4(chk, p, t):
 
     def one():
         comps = [n for n in walk_no_nested(sdo.node) if isinstance(n, (ast.ListComp, ast.GeneratorExp)) and isinstance(n.elt, ast.Call) and call_name(n.elt) == "getCurrentEphemeris"]
-        colls = [unparse(c.generators[0].iter) for c in comps]
+
+        def strip(it):
+            while isinstance(it, ast.Call) and call_name(it) in ("list", "tuple", "iter") and len(it.args) == 1:
+                it = it.args[0]
+            return unparse(it)
+
+        colls = [strip(c.generators[0].iter) for c in comps]
+        # the same collection written as a statement loop: `for a in coll: out.append(a.getCurrentEphemeris())`
+        cfg = cfg_of(sdo)
+        pm = parents_map(sdo.node)
+        in_comp = {id(c.elt) for c in comps}
+        for c in find_calls(sdo.node, "getCurrentEphemeris"):
+            if id(c) in in_comp or not (isinstance(c.func, ast.Attribute) and isinstance(c.func.value, ast.Name)):
+                continue
+            cur, loop = c, None
+            while cur in pm:
+                cur = pm[cur]
+                if isinstance(cur, ast.For) and isinstance(cur.target, ast.Name) and cur.target.id == c.func.value.id:
+                    loop = cur
+                    break
+            require(loop is not None, "getCurrentEphemeris is not called on the element of a loop over an agent collection", c)
+            colls.append(strip(loop.iter))
+            nd = cfg.node_of(c)
+            inner = [cfg.nodes[cid] for cid, _lab in cfg.control_conditions(nd.id)] if nd is not None else []
+            if any(x.kind == "cond" and any(y is x.ast for y in ast.walk(loop)) for x in inner):
+                r.violation(sdo.qualname + ":ephemerides", f"filtered:{unparse(loop.iter)[:60]}", "an agent collection is filtered: some agents get no record for the epoch", sdo.loc(c))
         exp = {"self.target_agents.values()", "self.sensor_agents.values()", "self.estimate_agents.values()"}
         if sorted(colls) == sorted(exp):
             r.ok(sdo.qualname + ":ephemerides", "one pass over targets, sensors, estimates each", sdo.loc())
